@@ -406,6 +406,7 @@ func (m *Nitro) newBSDestructor() skiplist.BarrierSessionDestructor {
 		// If gclist is not empty
 		if ref != nil {
 			freelist := (*skiplist.Node)(ref)
+			verifYield(vpFreeSend, unsafe.Pointer(m))
 			m.freechan <- freelist
 		}
 	}
